@@ -117,7 +117,7 @@ MOVES = [
 
 
 def harnesses(tier, seed):
-    t = 150 if tier == "quick" else 900
+    t = 450 if tier == "quick" else 900
     hs = []
     gs = _groups(tier, seed)
     n_inst = len(gs)
